@@ -2,7 +2,7 @@ SPECIFICATION Spec
 CONSTANTS
   Versions <- VersionsAll
   Family = "sib"
-  ShapeIds <- ShapesAll
+  ShapeIds <- ShapesC03
   VariantIds <- VariantsAll
   MaxOps = 0
   Alphabet <- NoOps
